@@ -47,6 +47,18 @@ func debugCmd(args []string) {
 	e := vc.NewEngine(prog)
 	e.Prepare()
 	keys := fs.Args()
+	if len(keys) == 1 && keys[0] == "SWEEP" {
+		keys = nil
+		for k, fi := range prog.Funcs {
+			if fi.File == "roll.peg.go" || fi.File == vc.ContractsFileName || fi.File == vc.GenFileName || strings.HasSuffix(fi.File, "_test.go") {
+				continue
+			}
+			if _, has := prog.CF.Contracts[k]; !has {
+				keys = append(keys, k)
+			}
+		}
+		sort.Strings(keys)
+	}
 	if len(keys) == 0 {
 		keys = append(keys, prog.CF.Order...)
 	}
